@@ -26,7 +26,8 @@ from nflows import transforms as T
 from nflows.transforms import permutations as PM, coupling as CP, autoregressive as AR, normalization as NM, nonlinearities as NL, standard as ST, conv as CV, made as made_t, lu as LU
 from nflows.transforms import base as TB
 from nflows.flows import autoregressive as FA, realnvp as FR
-from nflows.distributions import normal as DN
+from nflows.distributions import normal as DN, mixture as DM
+from nflows.nn.nde import made as made_n
 from nflows.nn import nets
 
 PROP = "C15"
@@ -54,6 +55,9 @@ MODELS = {
     "Composite(RandomPermutation,LU,RandomPermutation)": (lambda: TB.CompositeTransform([PM.RandomPermutation(3), LU.LULinear(3), PM.RandomPermutation(3)]), (3,), None),
     "MaskedAutoregressiveFlow": (lambda: FA.MaskedAutoregressiveFlow(2, 3, num_layers=1, num_blocks_per_layer=1, use_random_permutations=True, use_random_masks=False, batch_norm_between_layers=True), (2,), "flow"),
     "MaskedAutoregressiveFlow/random-masks": (lambda: FA.MaskedAutoregressiveFlow(3, 4, num_layers=1, num_blocks_per_layer=1, use_residual_blocks=False, use_random_masks=True, use_random_permutations=True), (3,), "flow"),
+    "MADEMoG/random-mask": (lambda: DM.MADEMoG(3, 4, None, num_blocks=1, num_mixture_components=1, use_residual_blocks=False, random_mask=True), (3,), "dist"),
+    "MADEMoG/sequential,2-components": (lambda: DM.MADEMoG(2, 3, None, num_blocks=1, num_mixture_components=2), (2,), "dist"),
+    "nde.MADE/random-mask": (lambda: made_n.MADE(3, 4, num_blocks=1, output_multiplier=2, use_residual_blocks=False, random_mask=True), (3,), "net"),
     "SimpleRealNVP": (lambda: FR.SimpleRealNVP(2, 2, num_layers=2, num_blocks_per_layer=1, batch_norm_between_layers=True), (2,), "flow"),
 }
 
@@ -117,7 +121,7 @@ def job(cfg):
             share_symbols(A, Bm)
             x = stubs.named_tensor("x", (2,) + in_shape, lo=0 if "Piecewise" in name else None, hi=None)
             is_flow = history == "flow"
-            calls = [("log_prob", lambda m: (m.log_prob(x),))] if is_flow else [("forward", lambda m: m(x)), ("inverse", lambda m: m.inverse(x))]
+            calls = [("log_prob", lambda m: (m.log_prob(x),))] if history in ("flow", "dist") else [("forward", lambda m: (m(x),))] if history == "net" else [("forward", lambda m: m(x)), ("inverse", lambda m: m.inverse(x))]
             if is_flow:
                 calls.append(("transform_to_noise", lambda m: (m.transform_to_noise(x),)))
             for cname, call in calls:
@@ -202,7 +206,9 @@ def replay(name, s1, s2):
         torch.manual_seed(99)
         x = torch.rand((4,) + in_shape) * 0.8 + 0.1
         with torch.no_grad():
-            if history == "flow":
+            if history == "net":
+                worst = float((A(x) - Bm(x)).abs().max())
+            elif history in ("flow", "dist"):
                 a, b = A.log_prob(x), Bm.log_prob(x)
                 worst = float((a - b).abs().max())
             else:
@@ -237,7 +243,7 @@ def configs(tier):
 def main():
     rep = C.Report(PROP)
     cfgs = configs(C.TIER)
-    rep.functions = C.source_hash([PM.Permutation, PM.RandomPermutation, made_t.MaskedLinear, CP.CouplingTransform, NM.BatchNorm, NM.ActNorm, NL.Sigmoid, ST.PointwiseAffineTransform, CV.OneByOneConvolution, FA.MaskedAutoregressiveFlow, FR.SimpleRealNVP, DN.StandardNormal])
+    rep.functions = C.source_hash([PM.Permutation, PM.RandomPermutation, made_t.MaskedLinear, made_n.MaskedLinear, made_n.MixtureOfGaussiansMADE, DM.MADEMoG, CP.CouplingTransform, NM.BatchNorm, NM.ActNorm, NL.Sigmoid, ST.PointwiseAffineTransform, CV.OneByOneConvolution, FA.MaskedAutoregressiveFlow, FR.SimpleRealNVP, DN.StandardNormal])
     rep.bounds = {"models": list(MODELS), "seed_pairs": sorted({(c["seed_a"], c["seed_b"]) for c in cfgs}), "histories": ["fresh", "after a training-mode forward (BatchNorm running statistics, flows)", "after data-dependent initialisation (ActNorm)"], "inputs": "2 symbolic rows"}
     rep.assumptions = ["constructor seeds are sampled (a few pairs); parameter values and inputs are symbolic", "non-floating-point state (permutations, masks, degrees, flags) is whatever the real constructors / load_state_dict leave in each model"]
     rep.stubs = ["floating-point state-dict entries replaced by shared symbols in both models"]
